@@ -252,6 +252,11 @@ func (c *connection) onProcess(onConnect OnConnect, onRequest OnRequest) (proces
 		//       So here we need to check connection state again, to avoid connection leak
 		// double check close state
 		if c.status(closing) != 0 && c.lock(processing) {
+			// data that arrived after the loop above saw an empty buffer, followed by the
+			// peer's close, must still be offered to onRequest before the close callbacks
+			if c.status(closing) != user && onRequest != nil && c.Reader().Len() > 0 {
+				goto START
+			}
 			// poller will get the processing lock failed, here help poller do closeCallback
 			// fd must already detach by poller
 			c.closeCallback(false, false)
